@@ -95,6 +95,260 @@ def pytest_configure(config):
                 pass
         return r
     Bip32Path.parse = classmethod(parse)
+    _generic_wrappers()
+
+
+# ------------------------------------------------------------------ generic recorders
+# One record {"k": <trace action>, "inp": <the action's input JSON>, "res": <the OBSERVED outcome in
+# the action's result projection>} per outermost call.  Arguments outside the action's input
+# grammar (wrong types) are not recorded.
+def _rec(kind, inp, ok, v, proj):
+    """project under the depth guard (projections call back into the library) and log"""
+    _depth[0] += 1
+    try:
+        try:
+            if ok:
+                try:
+                    res = {"ok": True, "v": proj(v)}
+                except Exception as ex:
+                    res = {"ok": False, "exc": type(ex).__name__}
+            else:
+                res = {"ok": False, "exc": type(v).__name__}
+            _log({"k": kind, "inp": inp, "res": res})
+        except Exception:
+            pass
+    finally:
+        _depth[0] -= 1
+
+
+def _observe(orig, kind, inp_of, proj):
+    """wrapper: inp_of(*a, **kw) -> action input or None (= not recordable), evaluated BEFORE the call"""
+    import functools
+
+    @functools.wraps(orig)
+    def w(*a, **kw):
+        if _depth[0]:
+            return orig(*a, **kw)
+        _depth[0] += 1
+        try:
+            try:
+                inp = inp_of(*a, **kw)
+            except Exception:
+                inp = None
+        finally:
+            _depth[0] -= 1
+        if inp is None:
+            return orig(*a, **kw)
+        state = None
+        if isinstance(inp, dict):
+            state = inp.pop("__state__", None)
+            if "__list__" in inp:
+                inp = inp["__list__"]
+        try:
+            r = orig(*a, **kw)
+        except Exception as ex:
+            _rec(kind, inp, False, ex, None)
+            raise
+        _rec(kind, inp, True, r, (lambda v: proj(v, state)) if state is not None else proj)
+        return r
+    return w
+
+
+def _patch_function(mod, name, kind, inp_of, proj):
+    import sys
+    orig = getattr(mod, name)
+    w = _observe(orig, kind, inp_of, proj)
+    for m in list(sys.modules.values()):
+        if m is not None and getattr(m, "__name__", "").startswith("btc_hd_wallet") and getattr(m, name, None) is orig:
+            setattr(m, name, w)
+
+
+def _generic_wrappers():
+    from io import BytesIO
+    from btc_hd_wallet import helper, bech32, script, keys, bip39, bip32, bip85, base_wallet
+    from harness.core import B, T
+    from harness.acts import cmds_to_json, le_trim, node_json, _indices
+
+    isb = lambda x: isinstance(x, (bytes, bytearray))
+    _patch_function(helper, "encode_base58", "B58Enc", lambda data: B(data) if isb(data) else None, T)
+    _patch_function(helper, "decode_base58", "B58Dec", lambda s: T(s) if isinstance(s, str) else None, B)
+    _patch_function(helper, "encode_base58_checksum", "B58EncCheck", lambda data: B(data) if isb(data) else None, T)
+    _patch_function(helper, "decode_base58_checksum", "B58DecCheck", lambda s: T(s) if isinstance(s, str) else None, B)
+    _patch_function(helper, "encode_varint", "VarintEnc",
+                    lambda i: le_trim(i) if isinstance(i, int) and not isinstance(i, bool) and 0 <= i < 2 ** 80 else None, B)
+
+    def stream_inp(s):
+        if type(s) is not BytesIO:
+            return None
+        pos = s.tell()
+        return {"__state__": (s, pos), "bytes": B(s.getvalue()[pos:])}
+
+    def read_varint_inp(s):
+        d = stream_inp(s)
+        return None if d is None else {"__state__": d["__state__"], "__list__": d["bytes"]}
+
+    _patch_function(helper, "read_varint", "VarintRead", read_varint_inp,
+                    lambda n, st: {"val": le_trim(n), "used": st[0].tell() - st[1]})
+    orig_sparse = script.Script.__dict__["parse"].__func__
+    script.Script.parse = classmethod(_observe(orig_sparse, "ScriptParse", lambda cls, s: read_varint_inp(s),
+                                               lambda sc, st: {"cmds": cmds_to_json(sc.cmds), "used": st[0].tell() - st[1]}))
+
+    def cmds_ok(cmds):
+        return all((isinstance(c, int) and not isinstance(c, bool) and 0 <= c < 256) or isb(c) for c in cmds)
+    for nm, raw in (("raw_serialize", True), ("serialize", False)):
+        orig = script.Script.__dict__[nm]
+        setattr(script.Script, nm, _observe(orig, "ScriptSer",
+                                            (lambda raw: lambda self: {"cmds": cmds_to_json(self.cmds), "raw": raw}
+                                             if cmds_ok(self.cmds) else None)(raw), B))
+
+    def enc_inp(hrp, witver, witprog):
+        if not isinstance(hrp, str) or not isinstance(witver, int) or isinstance(witver, bool) or not -2 ** 20 < witver < 2 ** 20:
+            return None
+        prog = list(witprog)
+        if not all(isinstance(x, int) and 0 <= x < 256 for x in prog):
+            return None
+        return {"hrp": T(hrp), "ver": witver, "prog": prog}
+    _patch_function(bech32, "encode", "SegwitEnc", enc_inp, lambda v: _none_is_error(v) and T(v))
+    _patch_function(bech32, "decode", "SegwitDec",
+                    lambda hrp, addr: {"hrp": T(hrp), "addr": T(addr)} if isinstance(hrp, str) and isinstance(addr, str) else None,
+                    lambda t: _none_is_error(t[0]) and _none_is_error(t[1]) and {"ver": t[0], "prog": list(t[1])})
+
+    # keys
+    orig_wif = keys.PrivateKey.__dict__["wif"]
+
+    def wif_proj(w):
+        try:
+            back = {"ok": True, "k": B(bytes(keys.PrivateKey.from_wif(w)))}
+        except Exception:
+            back = {"ok": False}
+        return {"wif": T(w), "back": back}
+    keys.PrivateKey.wif = _observe(orig_wif, "Wif",
+                                   lambda self, compressed=True, testnet=False:
+                                   {"k": B(bytes(self)), "net": "test" if testnet else "main", "compressed": bool(compressed)},
+                                   wif_proj)
+    orig_fw = keys.PrivateKey.__dict__["from_wif"].__func__
+    keys.PrivateKey.from_wif = classmethod(_observe(orig_fw, "FromWif", lambda cls, wif_str: {"__list__": T(wif_str)}
+                                                    if isinstance(wif_str, str) else None, lambda pk: {"k": B(bytes(pk))}))
+    orig_pp = keys.PublicKey.__dict__["parse"].__func__
+    keys.PublicKey.parse = classmethod(_observe(orig_pp, "SecParse", lambda cls, key_bytes: {"__list__": B(key_bytes)}
+                                                if isb(key_bytes) else None, lambda pk: {"secc": B(pk.sec(True))}))
+
+    # bip39
+    _patch_function(bip39, "mnemonic_from_entropy", "Mnemonic",
+                    lambda entropy: {"hex": T(entropy)} if isinstance(entropy, str) else None, lambda m: {"idx": _indices(m)})
+    _patch_function(bip39, "bip39_seed_from_mnemonic", "Seed",
+                    lambda mnemonic, password="": {"m": T(mnemonic), "p": T(password)}
+                    if isinstance(mnemonic, str) and isinstance(password, str) else None, B)
+
+    # extended keys
+    DEFAULT = {("pub", False): 0x0488B21E, ("pub", True): 0x043587CF, ("prv", False): 0x0488ADE4, ("prv", True): 0x04358394}
+
+    def ser_inp(kind):
+        def f(self, version=None):
+            if version is None:
+                version = DEFAULT[(kind, bool(self.testnet))]
+            if not isinstance(version, int) or not 0 <= version < 2 ** 32 or not 0 <= self.depth < 256:
+                return None
+            return {"node": node_json(self), "version": B(version.to_bytes(4, "big")), "kind": kind}
+        return f
+    bip32.PubKeyNode.extended_public_key = _observe(bip32.PubKeyNode.__dict__["extended_public_key"], "ExtSer", ser_inp("pub"), T)
+    bip32.PrvKeyNode.extended_private_key = _observe(bip32.PrvKeyNode.__dict__["extended_private_key"], "ExtSer", ser_inp("prv"), T)
+
+    orig_np = bip32.PubKeyNode.__dict__["parse"].__func__
+
+    def parse_inp(cls, s, testnet=False):
+        d = {"asPrv": cls is bip32.PrvKeyNode, "net": "test" if testnet else "main"}
+        if cls not in (bip32.PrvKeyNode, bip32.PubKeyNode):
+            return None
+        if isinstance(s, str):
+            d.update(form="str", s=T(s), __state__=(None, 0))
+        elif isinstance(s, bytes):
+            d.update(form="bytes", s=B(s), __state__=(None, 0))
+        elif type(s) is BytesIO:
+            d.update(form="stream-offset", s=B(s.getvalue()), offset=s.tell(), __state__=(s, s.tell()))
+        else:
+            return None
+        return d
+
+    def parse_proj(n, st):
+        as_prv = type(n) is bip32.PrvKeyNode
+        d = {"node": node_json(n), "version": B((n.parsed_version or 0).to_bytes(4, "big"))}
+        try:
+            again = n.extended_private_key(version=n.parsed_version) if as_prv else n.extended_public_key(version=n.parsed_version)
+        except Exception:
+            again = "ERR"
+        d["again"] = T(again)
+        if st[0] is not None:
+            d["pos"] = st[0].tell()
+        return d
+    bip32.PubKeyNode.parse = classmethod(_observe(orig_np, "ExtParse", parse_inp, parse_proj))
+
+    orig_fek = base_wallet.BaseWallet.__dict__["from_extended_key"].__func__
+    base_wallet.BaseWallet.from_extended_key = classmethod(_observe(
+        orig_fek, "Import", lambda cls, extended_key: {"s": T(extended_key)} if isinstance(extended_key, str) else None,
+        lambda w: {"net": "test" if w.testnet else "main", "watch_only": bool(w.watch_only), "has_bip85": w.bip85 is not None,
+                   "node": node_json(w.master), "master_net": "test" if w.master.testnet else "main"}))
+
+    # BIP85 applications
+    def ix(i):
+        return {"mag": B(abs(i).to_bytes(5, "big")), "neg": i < 0}
+
+    def b85(app, pname, pdefault):
+        orig = bip85.BIP85DeterministicEntropy.__dict__[app if app != "mnemonic" else "bip39_mnemonic"]
+
+        def inp_of(self, *a, **kw):
+            names = ([pname] if pname else []) + ["index"]
+            vals = dict(zip(names, a))
+            vals.update(kw)
+            p = vals.get(pname, pdefault) if pname else 0
+            i = vals.get("index", 0)
+            if not all(isinstance(x, int) and not isinstance(x, bool) and abs(x) < 2 ** 39 for x in (p, i)) or not -2 ** 20 < p < 2 ** 20:
+                return None
+            return {"master": node_json(self.master_node), "app": app, "p": p, "ix": ix(i)}
+        setattr(bip85.BIP85DeterministicEntropy, orig.__name__, _observe(orig, "Bip85", inp_of, T))
+    b85("mnemonic", "word_count", 24)
+    b85("wif", None, 0)
+    b85("xprv", None, 0)
+    b85("hex", "num_bytes", 32)
+    b85("pwd", "pwd_len", 21)
+
+
+def observed_event(kind, inp, res, eid=0):
+    """generic record -> trace event: the action's own constructor supplies the oracle table (it re-executes
+    the call, whose outcome is discarded); the outcome judged is the one OBSERVED during the test"""
+    from . import refprims as R
+    from .acts import make, emitted_address_oracle
+    ev = make(kind, inp, eid)
+    ev["res"] = res
+    tab = R.Table()
+    tab.rows = ev["o"]
+    tab.seen = set((row["f"], json.dumps(row["i"])) for row in tab.rows)
+    if res["ok"]:
+        for s in _strings(res.get("v")):
+            body = R.b58check_body(s)
+            if body is not None and ("hash256", json.dumps(list(body))) not in tab.seen:
+                emitted_address_oracle(tab, s)
+    ev["o"] = tab.rows
+    ev["from_suite"] = True
+    return ev
+
+
+def _strings(v):
+    """text values (code-point lists of Base58 characters) inside an observed result"""
+    from .refprims import B58
+    out = []
+    if isinstance(v, list) and v and all(isinstance(c, int) and 0 < c < 128 and chr(c) in B58 for c in v):
+        out.append("".join(chr(c) for c in v))
+    elif isinstance(v, dict):
+        for x in v.values():
+            out += _strings(x)
+    return out
+
+
+def _none_is_error(v):
+    if v is None:
+        raise ValueError("None")
+    return True
 
 
 def run_suite(files, out_path, repo):
@@ -119,17 +373,32 @@ def events_from(path, kinds, start_id=0, limit=None, rng=None):
             r = json.loads(line)
             if r["k"] not in kinds:
                 continue
-            key = json.dumps({k: r[k] for k in r if k not in ("v", "ok", "exc")}, sort_keys=True)
+            key = json.dumps({k: r[k] for k in r if k not in ("v", "ok", "exc", "res")}, sort_keys=True)
             if key in seen:
                 continue
             seen.add(key)
             recs.append(r)
     if limit and len(recs) > limit:
-        recs = (rng.sample(recs, limit) if rng else recs[:limit])
+        # stratified by (action, outcome): rare groups (failures, small families) are kept whole first
+        groups = {}
+        for r in recs:
+            groups.setdefault((r["k"], r["res"]["ok"] if "res" in r else r.get("ok")), []).append(r)
+        for g in groups.values():
+            if rng:
+                rng.shuffle(g)
+        picked = []
+        while len(picked) < limit and any(groups.values()):
+            for key in sorted(groups, key=str):
+                if groups[key] and len(picked) < limit:
+                    picked.append(groups[key].pop())
+        recs = picked
     events = []
     for r in recs:
         tab = R.Table()
         eid = start_id + len(events)
+        if "inp" in r:
+            events.append(observed_event(r["k"], r["inp"], r["res"], eid))
+            continue
         if r["k"] in ("CkdPriv", "CkdPub"):
             rpar = ref_node(tab, r["par"])
             rn = W.ckd(tab, rpar, r["i"])
